@@ -12,11 +12,15 @@ package cbe
 //@   requires writer != nil
 //@   modifies _this.writer, _this.stringWriter
 //@   ensures _this.writer == writer && _this.stringWriter != nil
+// strings go to the SAME destination as bytes: either the new writer itself or this Writer's own adapter
+// (which forwards to _this.writer), never a destination kept from an earlier document
+//@   ensures _this.stringWriter == writer || (typeIs(_this.stringWriter, "*StringWriterAdapter") && payload(_this.stringWriter, "*StringWriterAdapter") == _this.adapter)
 
 //@ func (*Encoder).PrepareToEncode
 //@   requires writer != nil
 //@   modifies _this.writer.writer, _this.writer.stringWriter
 //@   ensures _this.writer.writer == writer && _this.writer.stringWriter != nil
+//@   ensures _this.writer.stringWriter == writer || (typeIs(_this.writer.stringWriter, "*StringWriterAdapter") && payload(_this.writer.stringWriter, "*StringWriterAdapter") == _this.writer.adapter)
 
 //@ func (*Marshaler).Marshal
 //@   requires _this.config != nil && !_this.config.Debug.PassThroughPanics && writer != nil && !wfailed
